@@ -21,6 +21,8 @@ type profile struct {
 	bigPrices                                                                                              bool
 	settleFail                                                                                             bool
 	storeYields, storeFaults                                                                               bool
+	// outage: once a storage error has happened, the following store calls fail too (2-4 in a row)
+	outage bool
 }
 
 var worldReal = []string{"pool.VipnodePool", "pool/balance payPerInterval", "pool/payment PaymentService", "pool/store memory+badger drivers", "request (sign/verify)", "pool.RemotePool", "jsonrpc2 Remote/Server/Client on both ends"}
@@ -40,6 +42,10 @@ func init() {
 		"the sequential ledger histories with injected storage errors (any store operation of the pool may fail once or a few times per run, as with a full disk or an I/O error): after every operation that returns - succeeded or failed - the credit sum is unchanged (minus the stored credit for a successful withdrawal)",
 		profile{prop: "C01", oracles: []string{"C01"}, connect: 3, reconnect: 1, update: 12, peer: 1, addNode: 3, withdraw: 2, advance: 6, deposit: 1,
 			minOps: 10, maxOps: 50, minBal: []int64{-999, -999, 0, 50}, storeFaults: true})
+	regWorld("c01_ledger_outage", 150, 8000,
+		"the ledger histories with a storage outage: once a store operation of the pool has failed, the next one to three fail as well (a disk that is full stays full for a moment); after every operation that returns the credit sum is unchanged",
+		profile{prop: "C01", oracles: []string{"C01"}, connect: 3, reconnect: 1, update: 12, peer: 1, addNode: 3, withdraw: 2, advance: 6, deposit: 1,
+			minOps: 10, maxOps: 50, minBal: []int64{-999, -999, 0, 50}, storeFaults: true, outage: true})
 	regWorld("c02_billing_faults", 400, 25000,
 		"keep-alives with injected storage errors: a keep-alive that returns an error (other than the low-balance cut-off) must leave every balance as it was - all or nothing",
 		profile{prop: "C02", oracles: []string{"C02F"}, connect: 3, reconnect: 1, update: 14, addNode: 2, advance: 8,
@@ -288,8 +294,15 @@ func runWorldSeq(s *kernel.Sim, p profile) {
 			w.YS.FailPermille[ops[s.Choose("faultop", len(ops))]] = []int{50, 150, 400}[s.Choose("faultrate", 3)]
 		}
 		w.YS.FailBudget = 1 // one storage error per run: without transactions across store calls nothing can be promised for two
+		if p.outage {
+			w.YS.FailBudget = 2 + s.Choose("outage", 3)
+			w.YS.Streak = true
+		}
 	}
 	d := NewDirector(w, p.oracles...)
+	if p.outage {
+		d.keySuffix = " (storage outage: several store calls in a row fail)"
+	}
 	if p.storeFaults && p.prop == "C09" {
 		// only registrations meet storage errors here
 		d.faultConnectOnly = true
